@@ -78,10 +78,14 @@ func (r *vReadRes) whole(id string, n int64) bool {
 }
 
 // A reader and an overwriting upload of the same action-cache key.
-func VerifConcReadOverwrite()     { vConcReadOverwrite() }
-func VerifConcReadOverwriteDeep() { vConcReadOverwrite() }
+func VerifConcReadOverwrite()     { vConcReadOverwrite(false) }
+func VerifConcReadOverwriteDeep() { vConcReadOverwrite(false) }
 
-func vConcReadOverwrite() {
+// with the background remover as a third goroutine: the replaced file can
+// vanish between the reader's index lookup and its open (slow path)
+func VerifConcReadOverwriteEvict() { vConcReadOverwrite(true) }
+
+func vConcReadOverwrite(evictor bool) {
 	d := vNewDisk(1, casblob.Zstandard, []cache.EntryKind{cache.AC}, false)
 	c, st := d.c, d.st
 	hash := vHashes[0]
@@ -110,7 +114,23 @@ func vConcReadOverwrite() {
 		defer wg.Done()
 		perr = c.Put(context.Background(), cache.AC, hash, u.size, u.st)
 	}()
+	stop := make(chan struct{})
+	var ewg sync.WaitGroup
+	if evictor {
+		ewg.Add(1)
+		go func() {
+			defer ewg.Done()
+			select {
+			case q := <-c.lru.queuedEvictionsChan:
+				c.lru.queuedEvictionsChan <- q
+				c.lru.performQueuedEvictions()
+			case <-stop:
+			}
+		}()
+	}
 	wg.Wait()
+	close(stop)
+	ewg.Wait()
 
 	vsym.Reach("conc-read-overwrite-done")
 	vsym.Assert(rd.err == nil, "conc/C07-read-has-no-error")
